@@ -269,14 +269,20 @@ static int find_name (char *name, int nlist, char *namelist)
     copy_name (name, p1);
     copy_name (namelist, p2);
     if (0 == strcmp (p1, p2)) return 0;
-    copy_name (&namelist[33*hi], p2);
-    if (0 == strcmp (p1, p2)) return hi;
 
     while (lo <= hi) {
         mid = (lo + hi) >> 1;
         copy_name (&namelist[33*mid], p2);
         cmp = strcmp (p1, p2);
-        if (0 == cmp) return mid;
+        if (0 == cmp) {
+            /* names that are equal after -c / -i: the first of them */
+            while (mid > 0) {
+                copy_name (&namelist[33*(mid-1)], p2);
+                if (strcmp (p1, p2)) break;
+                mid--;
+            }
+            return mid;
+        }
         if (cmp > 0)
             lo = mid + 1;
         else
@@ -354,7 +360,10 @@ static void compare_nodes (char *name1, double id1, char *name2, double id2)
 
     for (n1 = 0, n2 = 0; n1 < nc1; n1++) {
         p = &children1[33*n1];
-        nret = find_name (p, nc2, children2);
+        /* the entries before n2 are paired already: search the others, so that
+           names that are equal after -c / -i pair up by position */
+        nret = n2 < nc2 ? find_name (p, nc2 - n2, &children2[33*n2]) : -1;
+        if (nret >= 0) nret += n2;
         if (nret < 0) {
             printf ("< %s/%s\n", name1, p);
             continue;
